@@ -121,6 +121,7 @@ const A_HUGE: u64 = 8; // 1 MB of text
 const A_RESET: u64 = 9; // connection closed without an answer
 const A_WRONGTYPES: u64 = 10; // the right keys with wrong types
 const A_HOLD: u64 = 11; // accept, but hold the reply until the class of the tower is changed (MODE t <other>), 30 s at most
+const A_SLOW: u64 = 13; // accept, 1.5 s after the request arrived (logged as an acceptance, at the time the request arrived)
 const A_UTF8: u64 = 12; // not JSON: an HTML error page longer than 256 bytes made of multi-byte characters (see utf8_page)
 // reply classes of register
 const R_GOOD: u64 = 0;
@@ -260,6 +261,7 @@ async fn handle_conn(mut s: tokio::net::TcpStream, st: Arc<Mutex<TowerState>>, i
     let (other_sk, _) = key_of(100 + id);
     let mut reply: Option<String> = None; // None = close without answering
     let mut held = false;
+    let mut slow = false;
     {
         let mut g = st.lock().unwrap();
         g.last_ms = ms;
@@ -313,13 +315,14 @@ async fn handle_conn(mut s: tokio::net::TcpStream, st: Arc<Mutex<TowerState>>, i
             let req = serde_json::from_slice::<msgs::AddAppointmentRequest>(body).ok();
             let loc = req.as_ref().and_then(|r| r.appointment.as_ref()).map(|a| loc_of_bytes(&a.locator)).unwrap_or(-2);
             let (slots, _start, expiry) = sub_values(g.gen);
-            let has_receipt = matches!(cls, A_ACCEPT | A_WRONGKEY | A_BADSIG | A_HOLD);
+            let has_receipt = matches!(cls, A_ACCEPT | A_WRONGKEY | A_BADSIG | A_HOLD | A_SLOW);
             // (a held reply is an acceptance: it is logged as such, at the time the request arrived)
             held = cls == A_HOLD;
+            slow = cls == A_SLOW;
             g.seen.push((1, loc));
-            g.log.push(LogEntry { t: id, ep: 1, l: loc, cls: if held { A_ACCEPT } else { cls }, ms, v: (if has_receipt { slots } else { 0 }, 0, 0) });
+            g.log.push(LogEntry { t: id, ep: 1, l: loc, cls: if held || slow { A_ACCEPT } else { cls }, ms, v: (if has_receipt { slots } else { 0 }, 0, 0) });
             reply = match cls {
-                A_ACCEPT | A_WRONGKEY | A_BADSIG | A_HOLD => {
+                A_ACCEPT | A_WRONGKEY | A_BADSIG | A_HOLD | A_SLOW => {
                     let req = req.unwrap();
                     let mut r = AppointmentReceipt::new(req.signature.clone(), 50);
                     r.sign(if cls == A_WRONGKEY { &other_sk } else { &tower_sk });
@@ -354,6 +357,10 @@ async fn handle_conn(mut s: tokio::net::TcpStream, st: Arc<Mutex<TowerState>>, i
             g.log.push(LogEntry { t: id, ep: 2, l: -1, cls: 0, ms, v: (0, 0, 0) });
             reply = Some("{}".to_string());
         }
+    }
+    if slow {
+        tokio::time::sleep(Duration::from_millis(1500)).await;
+        st.lock().unwrap().last_ms = t0.elapsed().as_millis() as u64;
     }
     if held {
         let since = Instant::now();
@@ -1344,6 +1351,13 @@ fn families() -> Vec<Scenario> {
         v.push(fam(32, 2, (2, 3, 1), vec![(K_REG, 0, R_GOOD), (K_REG, 1, R_GOOD), (K_UP, y, 0), (K_REV, 0, 0), (K_WAITSTATUS, y, 2), (K_MODE, x, A_HOLD), (K_REVNOWAIT, 1, 0),
                                           (K_WAITREQ, x, 1), (K_UP, y, 1), (K_RETRY, y, 0), (K_WAITSTATUS, y, 0), (K_MODE, x, A_ACCEPT), (K_SETTLE, 0, 0),
                                           (K_SLEEP, 9000, 0), (K_SETTLE, 0, 0)]));
+    }
+    // 33: a SLOW tower (every acceptance takes 1.5 s) comes back while its retrier is running with two appointments pending (the second one notified while it was already running), and a third
+    //     revocation arrives while the retrier is in the middle of delivering (after it has looked for leftovers): the third one must be
+    //     delivered too - handed to the running retrier, or picked up by a new one - and the tower shown reachable with nothing pending
+    for _ in 0..3 {
+        v.push(fam(33, 1, (6, 3, 1), vec![(K_REG, 0, R_GOOD), (K_UP, 0, 0), (K_REV, 0, 0), (K_SLEEP, 1800, 0), (K_REV, 1, 0), (K_MODE, 0, A_SLOW), (K_UP, 0, 1), (K_WAITREQ, 0, 1),
+                                          (K_REV, 2, 0), (K_SETTLE, 0, 0), (K_SLEEP, 14000, 0), (K_SETTLE, 0, 0)]));
     }
     // 28: the plugin is KILLED at some point of a bulk delivery and started again: what had a record before has one after
     for ms in [1250u64, 1400, 1550, 1700, 1850, 2000, 2150, 2300] {
